@@ -44,6 +44,21 @@ def _cases(tier, rng):
         acc = rng.choice([['add'], ['max'], ['last']]) if rng.random() < 0.7 else ['add']
         yield {'kind': 'mux', 'term': [['group_by', ['is_float'], [['scan', acc, rng.choice([0, 1]), False, None], ['ignore']]]],
                'items': items, 'no_model': True, 'isolate': 1}
+    # seeds whose type is a proper subclass of int / float (IntEnum members, numpy scalars, user classes): the fold keeps what the
+    # accumulator returns, on both paths (outside the model's values)
+    for _ in range({'quick': 24, 'thorough': 200, 'search': 16}[tier]):
+        seed = rng.choice([{'subint': 0}, {'subint': 5}, {'subfloat': enc(0.0)}, {'subfloat': enc(0.25)}])
+        st = ['scan', ['add'], seed, rng.random() < 0.4, None]
+        items = [rng.randrange(9) for _ in range(rng.choice([2, 4, 7]))]
+        ctx = rng.choice(['top', 'plain', 'group', 'roll'])
+        if ctx == 'top':
+            yield {'kind': 'mux', 'term': [st], 'items': items, 'no_model': True}
+        elif ctx == 'plain':
+            yield {'kind': 'plain', 'term': [st], 'items': items, 'no_model': True}
+        elif ctx == 'group':
+            yield {'kind': 'mux', 'term': [['group_by', ['mod', 2], [st]]], 'items': items, 'no_model': True}
+        else:
+            yield {'kind': 'mux', 'term': [['roll', 2, 2, [st]]], 'items': items, 'no_model': True}
     n = {'quick': 1500, 'thorough': 10000, 'search': 600}[tier]
     for _ in range(n):
         r = rng.random()
